@@ -835,6 +835,8 @@ def run(ck: core.Check):
         for e in E:
             for sh in nshapes:
                 types.append(wrap(["t", e, sh], w))
+    for sh in (["unk__0"], ["unk__0", 3], [2, "unk__batch"], ["7"], ["名前", "unk__1"], ["None", None]):
+        types.append(["t", E[0], sh])  # pool names are wildcards like any other name (judgement, equality, call boundary)
     for sh in [None, [], [2], ["N"]]:
         types.append(["t", "py:str", sh])
         types.append(["t", "str:q", sh])  # alias spelling of int64
